@@ -108,6 +108,25 @@ Theorem C25_body_shape_functional : forall n_out i ints es f es' f',
   body_shape n_out i ints es f -> body_shape n_out i ints es' f' -> es' = es /\ f' = f.
 Proof. intros. eapply body_shape_fun; eassumption. Qed.
 
+(* The script-stage flaw is the first error met reading instructions from the
+   left, in the first output that starts OP_RETURN OP_13 (later ones are ignored):
+   data pushes (declaratively: is_push, any of the four encodings, minimal or
+   not) are concatenated; the first non-push opcode (> OP_PUSHDATA4) gives Opcode,
+   the first push whose length bytes or data run past the end of the script
+   (truncated_push) gives InvalidScript. *)
+Theorem C25_script_flaw_first : forall (pre post : list (list N)) (r : list N),
+  Forall (fun s => ~ starts_with_magic s) pre ->
+  exists p, payload (pre ++ (OP_RETURN :: MAGIC_NUMBER :: r) :: post) = Ok (Some p) /\ script_shape r p.
+Proof. intros pre post r. exact (payload_first pre r post). Qed.
+
+(* Tie with the source: the tags the model's decipher takes are exactly the
+   `Tag::X.take(..)` calls the translator finds in runestone.rs (a new or removed
+   take breaks this Example, i.e. the proof side of the check). *)
+Example C25_tags_taken_tie :
+  TAGS_TAKEN = [TAG_Divisibility; TAG_Flags; TAG_Spacers; TAG_Rune; TAG_Symbol; TAG_Premine; TAG_Cap;
+                TAG_Amount; TAG_HeightStart; TAG_HeightEnd; TAG_OffsetStart; TAG_OffsetEnd; TAG_Mint; TAG_Pointer].
+Proof. reflexivity. Qed.
+
 (* ---- non-vacuity ----
    A rich well-formed runestone: unsorted edicts with a repeated id and id 0:0,
    every etching field and term at an extreme value, mint, pointer; it sits
@@ -156,3 +175,4 @@ Print Assumptions C25_decipher_total.
 Print Assumptions C25_flaw_order.
 Print Assumptions C25_message_flaw_first.
 Print Assumptions C25_body_shape_functional.
+Print Assumptions C25_script_flaw_first.
